@@ -16,7 +16,12 @@ bool StateModel::skip(const std::string& what_step, const bool status)
     if (what_step == "state")
         skip_ = status;
     else if (what_step == "exogenous")
+    {
+        if (!have_exogenous_model())
+            return false;
+
         exogenous_model().skip(what_step, status);
+    }
     else
         return false;
 
